@@ -116,7 +116,12 @@ func ruleR01_1(p *Program, r *Report) {
 	}
 	var widths []int64
 	nonConst := 0
-	for _, c := range allCalls(wt) {
+	// writeTo and the helpers its body may have been split into
+	var wtCalls []ssa.CallInstruction
+	for _, rc := range p.regionCalls(wt) {
+		wtCalls = append(wtCalls, rc.call)
+	}
+	for _, c := range wtCalls {
 		if !staticCalleeNamed(c, deflRel, "BitBuf", "WriteBit") {
 			continue
 		}
@@ -131,7 +136,7 @@ func ruleR01_1(p *Program, r *Report) {
 	sort.Slice(widths, func(i, j int) bool { return widths[i] < widths[j] })
 	r.Check(eqInts(widths, want) && nonConst == 1, "R01.1", "writeTo|bit widths", p.Pos(wt.Pos()), "block header fields are written with the RFC widths: 3 (BFINAL+BTYPE), 5 (HLIT), 5 (HDIST), 4 (HCLEN), 3 per code-length code, 2/3/7 extra bits for 16/17/18", fmt.Sprintf("constant widths %v, variable-width writes %d", widths, nonConst))
 	// extra-bit widths sit in the arms for 16/17/18
-	for _, c := range allCalls(wt) {
+	for _, c := range wtCalls {
 		if !staticCalleeNamed(c, deflRel, "BitBuf", "WriteBit") {
 			continue
 		}
@@ -786,6 +791,39 @@ func ruleR02_3(p *Program, r *Report) {
 
 const gzipRel, zlibRel = "compress/gzip", "compress/zlib"
 
+// gzipHeaderWriter: the method of gzip.Writer that builds the member header - the one that stores the magic
+// byte 0x1f at index 0 of the header array (Write itself, or a helper the header code was moved to).
+func gzipHeaderWriter(p *Program) *ssa.Function {
+	wn := p.Named(gzipRel, "Writer")
+	if wn == nil {
+		return nil
+	}
+	for _, fn := range p.Funcs() {
+		if fn.Signature.Recv() == nil || derefNamed(fn.Signature.Recv().Type()) != wn {
+			continue
+		}
+		for _, b := range fn.Blocks {
+			for _, in := range b.Instrs {
+				st, ok := in.(*ssa.Store)
+				if !ok {
+					continue
+				}
+				ia, ok := st.Addr.(*ssa.IndexAddr)
+				if !ok {
+					continue
+				}
+				if idx, isK := constInt(ia.Index); !isK || idx != 0 {
+					continue
+				}
+				if v, isV := constInt(st.Val); isV && v == 0x1f {
+					return fn
+				}
+			}
+		}
+	}
+	return p.Method(gzipRel, "Writer", "Write")
+}
+
 func ruleR06_1(p *Program, r *Report) {
 	r.Expect("R06.1", 12)
 	for name, want := range map[string]int64{"gzipID1": 0x1f, "gzipID2": 0x8b, "gzipDeflate": 8, "flagText": 1, "flagHdrCrc": 2, "flagExtra": 4, "flagName": 8, "flagComment": 16} {
@@ -796,7 +834,7 @@ func ruleR06_1(p *Program, r *Report) {
 		v, ok := constOf(p, zlibRel, name)
 		r.Check(ok && v == want, "R06.1", "zlib."+name, "-", fmt.Sprintf("RFC 1950 constant %s = %d", name, want), itoa(int(v)))
 	}
-	wr := p.Method(gzipRel, "Writer", "Write")
+	wr := gzipHeaderWriter(p)
 	if wr == nil {
 		r.Undecided("R06.1", "gzip.Writer.Write", "-", "method exists", "not found")
 		return
@@ -1017,7 +1055,7 @@ func optFieldCond(f Fact, recv ssa.Value) (string, string) {
 
 func ruleR06_2(p *Program, r *Report) {
 	r.Expect("R06.2", 2)
-	wr := p.Method(gzipRel, "Writer", "Write")
+	wr := gzipHeaderWriter(p)
 	rh := p.Method(gzipRel, "Reader", "readHeader")
 	if wr == nil || rh == nil {
 		r.Undecided("R06.2", "anchors", "-", "gzip Writer.Write and Reader.readHeader exist", "not found")
